@@ -147,6 +147,15 @@ def main(chk):
         events.append(ev)
         chk.count("type_" + s["t"])
         chk.count("parsed" if ev["parsed"] else "not_parsed")
+    # real binary floats (the model's numbers are exact): the printed text must still evaluate to an
+    # equal schema that prints the same; the abstract schema is a stand-in
+    from . import deep
+    dummy = {"t": "float", "value": [], "min": [], "max": [], "precision": []}
+    for text, real in deep.real_float_schemas():
+        ev = observe(real)
+        ev.update({"id": len(events) + 1, "s": dummy, "parsed": False, "expr": {"k": "expr", "t": "none", "calls": []}, "srepr": text})
+        events.append(ev)
+        chk.count("real_float_schemas")
     chk.require(len(events) >= 1500, "fewer than 1500 schemas printed (%d)" % len(events))
     chk.require(chk.counts.get("parsed", 0) >= 0.95 * len(events), "too many texts could not be re-read")
     slim = [{k: e[k] for k in ("id", "s", "stable", "eval_exc", "eq", "same_repr", "parsed", "expr")}
